@@ -49,6 +49,9 @@ pub fn judge(input: &str) -> Verdict {
 }
 
 pub fn replay(case: &Value) -> Result<Verdict, String> {
+    if case["kind"] == "fuzz-input" {
+        return crate::fuzzrun::replay(case);
+    }
     Ok(judge(case["input"].as_str().ok_or("no input")?))
 }
 
@@ -96,7 +99,7 @@ pub fn worker(shard: usize, nshards: usize, seed: u64, tier: Tier, out: &str, tr
 
 pub fn run(ctx: &Ctx) -> Report {
     let nshards = 32usize;
-    let scratch = std::env::var("FFV_SCRATCH").unwrap_or_else(|_| format!("{VERIF_DIR}/harness/target/scratch"));
+    let scratch = std::env::var("FFV_SCRATCH").unwrap_or_else(|_| format!("{}/harness/target/scratch", verif_dir()));
     let _ = std::fs::create_dir_all(&scratch);
     let exe = std::env::current_exe().expect("current_exe");
     let tag = format!("{}-{}", profile(), std::process::id());
@@ -162,6 +165,11 @@ pub fn run(ctx: &Ctx) -> Report {
     let mut total = total.into_inner().unwrap();
     total.nt_set = nt_all.into_inner().unwrap();
     total.exhaustive_parts.push("every string of length 1..=3 over a 20-symbol alphabet after each of 41 keywords (bare, and quoted for -perm/-printf); numeric boundary strings after every numeric carrier; octal runs of 1..24 digits after -perm and '\\'".into());
+    // coverage-guided part: replay of the committed corpus (quick), libFuzzer campaign (thorough)
+    crate::fuzzrun::replay_corpus("total", &mut total);
+    if ctx.tier == Tier::Thorough && ctx.part.is_none() {
+        crate::fuzzrun::campaign("total", ctx.seed, 3_000_000, 8, 512, &mut total);
+    }
     Report {
         stats: total,
         rule: "inputs within the stated bounds (UTF-8, <= 4 KiB, <= 64 of '(' and '!'): (1) grammar-aware texts over the whole vocabulary in layout/argument-spelling variants; (2) every prefix and every single-character mutation (delete, duplicate, replace by each of 24 special characters) of a sample of those; (3) every argument string of length <= 3 over a 20-symbol alphabet after each argument-taking keyword; (4) numeric boundary strings and long octal runs; (5) the member/non-member texts of C05 and random format strings; nesting at the bound. Oracle, per input, in a child process, in the dev and in the release build: parse returns; on Err, Display and Debug of the error return; on Ok, compile returns; on Ok, scheme(\"/\"), scheme(hostile path) and io_map() return. A panic, abort or fatal signal is a failure; a watchdog expiry is inconclusive (exit 2). Non-trivial: parsing got past the first token (Ok, or an error that names a keyword). Distinct: by input text.".into(),
